@@ -5,7 +5,6 @@ use std::cell::RefCell;
 use std::collections::{BTreeMap, BTreeSet};
 use std::panic::{catch_unwind, AssertUnwindSafe};
 use std::sync::Once;
-use std::time::Instant;
 
 thread_local! {
     static LAST_PANIC: RefCell<Option<String>> = const { RefCell::new(None) };
@@ -116,7 +115,7 @@ pub struct Report {
     pub property: String,
     pub tier: Tier,
     pub level: &'static str,
-    pub started: Instant,
+    pub started_ns: u64,
     pub coverage: BTreeMap<String, Value>,
     pub assumptions: Vec<String>,
     /// new violations (not matching a known finding): (violation, replay path)
@@ -127,7 +126,7 @@ pub struct Report {
 
 impl Report {
     pub fn new(property: &str, tier: Tier, level: &'static str) -> Report {
-        Report { property: property.to_string(), tier, level, started: Instant::now(), coverage: BTreeMap::new(), assumptions: Vec::new(), violations: Vec::new(), known_hit: BTreeSet::new(), machinery_errors: Vec::new() }
+        Report { property: property.to_string(), tier, level, started_ns: crate::vclock::real_ns(), coverage: BTreeMap::new(), assumptions: Vec::new(), violations: Vec::new(), known_hit: BTreeSet::new(), machinery_errors: Vec::new() }
     }
 
     pub fn set(&mut self, key: &str, value: Value) { self.coverage.insert(key.to_string(), value); }
@@ -142,7 +141,8 @@ impl Report {
     /// Writes the evidence file, prints KNOWN-FINDING / VIOLATION lines, returns the process exit code.
     pub fn finish(mut self) -> i32 {
         let seed: i64 = std::env::var("VERIF_SEED").ok().and_then(|s| s.parse().ok()).unwrap_or(0);
-        let wall = self.started.elapsed().as_secs_f64();
+        crate::vclock::set(None);
+        let wall = (crate::vclock::real_ns() - self.started_ns) as f64 / 1e9;
         self.coverage.insert("known_findings_hit".into(), json!(self.known_hit.iter().map(|(p, s)| format!("{} {}", p, s)).collect::<Vec<_>>()));
         let evidence = json!({
             "property_id": self.property,
